@@ -32,7 +32,7 @@ claims = {
    text=("One contract on forkexec.forkAndExecInChild with a symbolic *Runner (all option combinations at once) over ghost child state K: at both exec call sites and in the ETXTBSY retry loop "
          "caps empty + NOROOT locked when credentials/drop-caps requested, no_new_privs when requested or a filter is given, the filter installed iff given (that very program, TSYNC), uid/gid/groups, new session, ctty, cwd, host/domain name issued with the configured length, "
          "clone/clone3 flags = requested namespaces, INTO_CGROUP iff a cgroup fd is given; late cgroup unshare only after the sync ack. Every raw syscall may fail in the model, so a dropped error check is a reachable path."),
-   note=TRUST + "kernel model K (spec/kernel_K.contracts, from the man pages); results of sethostname/setdomainname/unshare are ignored by the code and asserted on issue only; Runner literals in container/unshare/ptrace runners not under contract yet.",
+   note=TRUST + "kernel model K (spec/kernel_K.contracts, from the man pages); results of sethostname/setdomainname/unshare are ignored by the code and asserted on issue only; Runner literals: container handleExecve and unshare.Run are checked at their Start call sites (always no_new_privs + drop-caps; unshare: exactly the five unshare namespaces, late cgroup unshare, no ptrace); found and fixed: a Runner without a seccomp filter crashed in Filter.SockFprog instead of starting the program without one. ptrace.Run's literal is not under contract.",
    design_ref="DESIGN.md §4 C04"),
  "C05": dict(level="proof",
    text=("Raw in-child mount sequence (forkAndExecInChild, model K): loop invariant over all mount entries (each mounted with exactly its source/target/type/flags/data; bind-read-only entries remounted with at least their own flags plus REMOUNT), "
@@ -57,7 +57,7 @@ claims = {
  "C09": dict(level="proof",
    text=("For all 2^32 wait words: container.convertReply and ptracer handle/trace equal the README status table (main process); an exit or fatal signal of a secondary process leaves the run going with status Normal; "
          "Runner Error only with a non-empty text. syscall/unix WaitStatus methods are verified from the toolchain source, not trusted."),
-   note=TRUST + "fmt.Sprintf / error.Error non-empty-text contracts assumed. Host container.convertReplyResult/errResult are under contract (status copied through, Runner Error carries text). unshare.Run wait loop not under contract yet.",
+   note=TRUST + "fmt.Sprintf / error.Error non-empty-text contracts assumed. Host container.convertReplyResult/errResult are under contract (status copied through, Runner Error carries text). unshare.Run: at every return the verdict equals the table (MLE over TLE by the reported usage first, then exit code / signal), the reported time and memory are the compared ones, Runner Error carries text; the nanosecond conversion itself is only proved for the ptrace runner (checkUsage).",
    design_ref="DESIGN.md §4 C09"),
  "C10": dict(level="proof",
    text=("Typestate proof of both ends of the RPC against one protocol automaton (spec/protocol.contracts; ghost P.st for the container init, H.st for the host; states idle/awaiting-reply/exec-sync/.../LOST). "
@@ -80,7 +80,7 @@ claims = {
  "C12": dict(level="proof",
    text=("Partial. Processes: the deferred clean-up of Tracer.trace issues kill(-pgid, SIGKILL) and then reaps until wait4 fails, on every return path; forkexec Start/syncWithChild/handleChildFailed kill and reap the child on every failing path (parent-side model). "
          "Descriptors: forkexec Start closes both ends of the sync socketpair on every path; container handleOpen/handleExecve close every file they opened after sending (closeFds over all entries) and on every error path; host Open closes all received descriptors when it fails part-way (Open$1)."),
-   note=TRUST + "goroutine counts and the unshare runner are not under contract; unixsocket RecvMsg descriptor ownership is C19 (not claimed); that everything is dead afterwards is kernel behaviour.",
+   note=TRUST + "unshare.Run's deferred clean-up likewise kills the group and reaps (Run$2). Goroutine counts are not under contract; unixsocket RecvMsg descriptor ownership is C19 (not claimed); that everything is dead afterwards is kernel behaviour.",
    design_ref="DESIGN.md §4 C12"),
  "C15": dict(level="proof",
    text=("No-panic/termination obligations for tracer-side code under an unconstrained tracee: clen, hasNull, vmRead, vmReadStr, GetString, Context accessors, handle, handleTrap, trace (Runner Error only on the two launcher-side causes), IsInSetSmart/dirname; "
